@@ -833,11 +833,11 @@ def judge_grammar_case(text, exp_data, exp_mask, spans, status, got_data, got_ma
     """Returns None or (key, what)."""
     if status != 0:
         return ("parse:grammar:throws", "parse_data_string threw on a well-formed text: %r" % got_data[:200])
-    if alts and got_data != exp_data and len(got_data) == len(exp_data):
+    if alts and got_data != exp_data:
         # spans where the statement allows more than one byte string (overflowing / underflowing float literals)
         g = bytearray(got_data)
         for s, e, others in alts:
-            if bytes(g[s:e]) in others:
+            if e <= len(g) and g[:s] == exp_data[:s] and bytes(g[s:e]) in others:
                 g[s:e] = exp_data[s:e]
         got_data = bytes(g)
     if got_data != exp_data:
